@@ -1256,3 +1256,41 @@ Proof.
   - destruct (DB e Ie) as [[L E]|[L E]]; rewrite L in H; injection H as <-; lia.
   - destruct (DB e Ie) as [[L E]|[L E]]; rewrite L in H; injection H as <-; lia.
 Qed.
+
+(** * The decision table in statement form *)
+Lemma cog_decision_table s dst du B fit rq tight anc tol rr g :
+  compute_output_geobox s dst du B fit rq None tight anc tol rr = Ok (ONew g) ->
+  exists rx ry,
+    aa (g_aff g) == rx /\ ae (g_aff g) == ry /\
+    match rq with
+    | RSame => (rx, ry) = s_res s
+    | RAuto => if Z.eqb (s_units s) du then (rx, ry) = s_res s
+               else rx = rounded rr fit /\ ry = - rounded rr fit
+    | RFit => rx = rounded rr fit /\ ry = - rounded rr fit
+    | RNum q => rx = q /\ ry = - q
+    | RXY x y => rx = x /\ ry = y
+    | RStr => False
+    end.
+Proof.
+  intros H.
+  destruct (cog_resolution _ _ _ _ _ _ _ _ _ _ _ H) as (rx & ry & C & A1 & A2).
+  exists rx, ry. split; [exact A1|]. split; [exact A2|].
+  unfold chosen in C. destruct rq.
+  - injection C as C. symmetry. exact C.
+  - destruct (Z.eqb (s_units s) du).
+    + injection C as C. symmetry. exact C.
+    + injection C as <- <-. auto.
+  - injection C as <- <-. auto.
+  - discriminate.
+  - injection C as <- <-. auto.
+  - injection C as <- <-. auto.
+Qed.
+
+Lemma cog_same_units s dst B fit tight anc tol rr g :
+  compute_output_geobox s dst (s_units s) B fit RAuto None tight anc tol rr = Ok (ONew g) ->
+  aa (g_aff g) == fst (s_res s) /\ ae (g_aff g) == snd (s_res s).
+Proof.
+  intros H.
+  destruct (cog_resolution _ _ _ _ _ _ _ _ _ _ _ H) as (rx & ry & C & A1 & A2).
+  unfold chosen in C. rewrite Z.eqb_refl in C. injection C as C. rewrite C. simpl. auto.
+Qed.
